@@ -132,6 +132,20 @@ def odd_name_specs(mat, root):
                 specs.append(flowcheck.prepare(dict(tag="C18/o%03d" % len(specs), certs=[simple_cert("odd%d" % len(specs))], endpoints={"A": ep}, global_opts=g,
                                                     steps=[("run", {"attempts": 1, "root_certs": rc})],
                                                     meta={"family": "root file names with pattern characters", "pt": pt, "url_host": host, "given": given, "neighbour": neighbour})))
+    # variables meant for the hooks ([global] env, certificate env) name a CA bundle the way OpenSSL-based tools expect it: that is the
+    # hooks' business - the daemon's own trust store stays what the three sources say
+    d = os.path.join(root, "odd", "envroot")
+    os.makedirs(d, exist_ok=True)
+    bundle = os.path.join(d, "hook-api-ca.pem")
+    open(bundle, "w").write(mat["good_root_pem"])
+    for k, (where, var) in enumerate((("global", "SSL_CERT_FILE"), ("cert", "SSL_CERT_FILE"), ("global", "SSL_CERT_DIR"), ("global", "CURL_CA_BUNDLE"))):
+        host = "localhost" if k % 2 == 0 else "127.0.0.1"
+        val = bundle if var != "SSL_CERT_DIR" else d
+        c = simple_cert("envroot%d" % k, **({"env": {var: val}} if where == "cert" else {}))
+        pt = {"conf": [], "holder": "none", "server": "trusted", "badsrc": "cli", "filestate": "ok"}
+        specs.append(flowcheck.prepare(dict(tag="C18/o%03d" % len(specs), certs=[c], endpoints={"A": {"ca": {"tls": mat["trusted"], "host": host}}},
+                                            global_opts={"env": {var: val}} if where == "global" else {}, steps=[("run", {"attempts": 1})],
+                                            meta={"family": "hook environment naming a CA bundle", "pt": pt, "url_host": host, "where": where, "var": var})))
     return specs
 
 
